@@ -6,7 +6,7 @@ import shutil
 from .. import cases
 
 TITLE = "File import and export are faithful"
-DECIDING = ["M-ROUNDTRIP", "M-CSV-READ", "M-RTTM", "M-TEXTGRID", "M-ELAN"]
+DECIDING = ["M-ROUNDTRIP-CONCURRENT", "M-ROUNDTRIP", "M-CSV-READ", "M-RTTM", "M-TEXTGRID", "M-ELAN"]
 LEVEL = "exploration"
 RULE = ("generated files with an independently known content: (a) CSV round trip from_csv(to_csv(c)) == c with equal "
         "categories, delimiters , ; tab |, annotator / label text with spaces, quotes, delimiter characters, unicode, "
@@ -14,7 +14,8 @@ RULE = ("generated files with an independently known content: (a) CSV round trip
         "arbitrary finite doubles as times (Python floats, numpy scalars, ints); (b) CSV "
         "files written by the harness (csv module and hand-quoted) incl. zero-length and reversed rows: dropped with "
         "discard_invalid_rows=True, ValueError otherwise; (c) RTTM lines; (d) TextGrid files written with the textgrid "
-        "package (several interval tiers, empty marks, an unselected point tier, tier selection, tier-as-label); (e) "
+        "package (several interval tiers, two tiers sharing a name, empty marks, a point tier, tier selection, tier-as-label, the same file imported in both "
+        "label modes in either order); (f) four user threads doing CSV round trips at once, each with its own delimiter; (e) "
         "ELAN files written with pympi (alignable tiers, millisecond integers, tier selection, tier-as-label). Expected "
         "unit sets are compared as sets of (annotator, start, end, label). non-trivial = file with >= 2 units; distinct "
         "by SHA-1 of the file content description")
@@ -402,7 +403,58 @@ def gen_elan(rng):
             "prior": rng.choice([None, None, "registered", "units", "other-annotator", "twice"])}
 
 
-CHECKS = {"roundtrip": check_roundtrip, "csv-read": check_csv_read, "rttm": check_rttm, "textgrid": check_textgrid,
+def check_concurrent_roundtrips(ctx, case):
+    """Several user threads write and read back their own continuum at once, each with its own delimiter."""
+    from pygamma_agreement import Continuum
+    from pyannote.core import Segment
+    from . import _align_common as ac
+    conts = []
+    for units in case["continua"]:
+        c = Continuum()
+        for a, s, e, lab in units:
+            c.add(a, Segment(s, e), lab)
+        conts.append(c)
+    d = workdir(ctx)
+
+    def work(k):
+        bad = []
+        for r in range(case["repeat"]):
+            path = os.path.join(d, f"conc-{ctx.evaluations}-{k}-{r}.csv")
+            try:
+                conts[k].to_csv(path, delimiter=case["delimiters"][k])
+                back = Continuum.from_csv(path, delimiter=case["delimiters"][k])
+                if not (back == conts[k]) or units_set(back) != units_set(conts[k]):
+                    bad.append("differs")
+            except Exception as e:
+                bad.append("raises:" + type(e).__name__)
+            finally:
+                if os.path.exists(path):
+                    os.unlink(path)
+        return bad
+    for k, (res, exc) in enumerate(ac.concurrent_calls([(lambda k=k: work(k)) for k in range(len(conts))])):
+        ctx.count("M-ROUNDTRIP-CONCURRENT")
+        if exc is not None:
+            ctx.fail_exc(f"concurrent-roundtrip:harness-thread-raises:{type(exc).__name__}", exc, monitor="M-ROUNDTRIP-CONCURRENT")
+        elif res:
+            ctx.fail("concurrent-roundtrip:" + res[0], {"thread": k, "delimiter": case["delimiters"][k], "failures": len(res), "of": case["repeat"]},
+                     monitor="M-ROUNDTRIP-CONCURRENT")
+
+
+def gen_concurrent_roundtrips(rng):
+    delims = [",", ";", "\t", "|"]
+    rng.shuffle(delims)
+    continua = []
+    for k in range(4):
+        units = set()
+        for a in ["ann 1", "b;c", "d,e"][: rng.randint(1, 3)]:
+            for _ in range(rng.randint(2, 6)):
+                s = float(rng.randrange(0, 500))
+                units.add((a, s, s + rng.randint(1, 9), rng.choice(["x", "y;z", "u,v", "w|q", "tab\tbed", "plain"])))
+        continua.append([list(u) for u in sorted(units)])
+    return {"kind": "concurrent-roundtrips", "continua": continua, "delimiters": delims, "repeat": 25}
+
+
+CHECKS = {"concurrent-roundtrips": check_concurrent_roundtrips, "roundtrip": check_roundtrip, "csv-read": check_csv_read, "rttm": check_rttm, "textgrid": check_textgrid,
           "elan": check_elan}
 GENS = [gen_roundtrip, gen_roundtrip, gen_csv_read, gen_rttm, gen_textgrid, gen_elan]
 
@@ -412,6 +464,8 @@ def check_case(ctx, case):
 
 
 def n_units(case):
+    if case["kind"] == "concurrent-roundtrips":
+        return sum(len(u) for u in case["continua"])
     if case["kind"] == "roundtrip":
         return len(case["units"])
     if case["kind"] == "csv-read":
@@ -423,6 +477,11 @@ def n_units(case):
 
 def run(ctx):
     rng = ctx.rng
+    for _ in range(ctx.scale(3, 30)):       # four user threads writing and reading back at once, each with its own delimiter
+        case = gen_concurrent_roundtrips(rng)
+        ctx.begin_case(case)
+        ctx.observe("kind", case["kind"])
+        check_case(ctx, case)
     for i in range(ctx.scale(150, 4000)):
         if ctx.out_of_time():
             break
